@@ -8,7 +8,7 @@ def opt(f, default):
     p = os.path.join(V, "notes", f)
     return open(p).read() if os.path.exists(p) else default
 s0 = s0.replace("SEEDED_TABLE", opt("seeded_table.md", "(pending)")).replace("INTEGRATION_NOTES", opt("integration.md", "(pending)"))
-s0 = s0.replace("SWEEP_TABLE", opt("sweep_table.md", "(pending)")).replace("THOROUGH_TABLE", opt("thorough_table.md", "(pending)"))
+s0 = s0.replace("SWEEP_TABLE", (opt("sweep_table.md", "(pending)") + "\n\n" + opt("sweep4_table.md", ""))).replace("THOROUGH_TABLE", opt("thorough_table.md", "(pending)"))
 B, E = "<!-- S0 BEGIN -->", "<!-- S0 END -->"
 block = B + "\n" + s0 + "\n" + E + "\n\n"
 if B in d:
